@@ -649,6 +649,9 @@ func genC07(g *Gen) error {
 	if err := genC07Rest(g); err != nil {
 		return err
 	}
+	if err := genC07Col(g); err != nil {
+		return err
+	}
 	g.Footer()
 	return nil
 }
